@@ -26,10 +26,10 @@ const c03NKeys = 3 // data key K1, data key K2, the sponsor's balance key
 
 type c03World struct {
 	keys      [c03NKeys][]byte
-	undecl    []byte          // a key nobody declared
+	undecl    []byte            // a key nobody declared
 	cur       [c03NKeys]c03cell // the state as the actions have changed it so far (reference model)
-	started   int             // actions that began to run
-	completed int             // actions that returned successfully
+	started   int               // actions that began to run
+	completed int               // actions that returned successfully
 	maxOps    int
 }
 
@@ -141,7 +141,14 @@ func c03Tx(acts []Action, addr codec.Address, size int, maxFee uint64) *Transact
 // fails => published state = initial state minus the fee only, !Success, outputs of exactly the actions that completed,
 // no later action ran.
 func VerifC03Atomic() {
-	c03Atomic(verifParam("maxActions", 2, 3), verifParam("maxOpsPerAction", 2, 2))
+	// quick: up to 2 actions x up to 2 state changes; thorough adds the shape up to 3 actions x up to 1 state change
+	if verifParam("threeActionShape", 0, 1) == 1 {
+		if verifChoose("shape", 2) == 1 {
+			c03Atomic(3, 1)
+			return
+		}
+	}
+	c03Atomic(2, 2)
 }
 
 // VerifC05Tx: the same transaction-level check at a smaller bound, registered under C05 for its undeclared-access
